@@ -84,6 +84,11 @@ def conform_value(ip, st, v, head):
     """calls.conform for the types Tree / KeySet / TreeMap; None = does not fit"""
     if isinstance(v, Opaque) and v.sort == SORT_OF[head]:
         return v
+    if head == "KeySet" and kset_cell(st, v) is not None:
+        # the VALUE the set object has now; from now on the object must not change (the callee may keep the object itself)
+        c = st.heap[v.cid]
+        st.heap[v.cid] = KeySetCell(c.term, frozen=True)
+        return Opaque(c.term)
     if head == "Tree":
         t = tree_term(ip, st, v)
         if t is not None:
@@ -107,7 +112,10 @@ def tree_attr(ip, st, v, attr):
 
 
 def contains(ip, st, a, b):
-    """`a in b` for a KeySet / TreeMap value b (None: b is neither)"""
+    """`a in b` for a KeySet / TreeMap value b or a set-of-strings object b (None: b is none of them)"""
+    c = kset_cell(st, b)
+    if c is not None:
+        return T("(select %s %s)" % (c.term.s, ip.key_term(a).s), "Bool")
     if not isinstance(b, Opaque):
         return None
     if b.sort == KSET:
@@ -144,3 +152,91 @@ def truth(ip, st, v):
     if v.sort == TMAP:
         return NOT(EQ(v.t, empty_tmap(ip)))
     return None
+
+
+# --------------------------------------------------------------------------- sets of strings as OBJECTS
+from .sym import Cell
+
+
+class KeySetCell(Cell):
+    """a python set of strings created by the code under proof (`set(...)`): term of sort (Array Key Bool).  `frozen`: its
+    value was handed out as an immutable KeySet value (conform): a later change of the object is refused"""
+
+    def __init__(self, term, frozen=False):
+        self.term, self.frozen = term, frozen
+
+    def __repr__(self):
+        return "KeySetCell(%s)" % self.term.s[:40]
+
+
+def kset_cell(st, v):
+    if isinstance(v, Ref) and not v.path and isinstance(st.heap.get(v.cid), KeySetCell):
+        return st.heap[v.cid]
+    return None
+
+
+def set_of_keys(ip, st, view):
+    """set(view) for a view of symbolic length whose items are strings: a new set object S with
+    S[k] <=> k is one of the items; None when the items are not strings"""
+    from .smt import I
+    from .sym import Opaque as Opq, View
+    if not ip.spec_mode and getattr(view, "lazy", False) and getattr(view, "get2", None) is not None:
+        from .histlib import symbolic_listcomp      # one generic item is evaluated with its safety obligations
+        lv = symbolic_listcomp(ip, st, st, view)
+        view = ip.as_view(st, lv) if isinstance(lv, Ref) else lv
+    if view.items is not None:
+        return None
+    sample = view.get(T("0", "Int"))
+    if not (isinstance(sample, Opq) and sample.sort == "Key"):
+        return None
+    declare_tree(ip.reg)
+    t = getattr(view, "term", None)
+    lk = ip.reg.lst("Key")
+    if t is None or t.sort != lk:
+        from .calls import materialise
+        t = materialise(ip, st, view, lk)
+    s = ip.reg.new("keyset", KSET)
+    q, k = "ks%d" % next(ip.bound), "ks%d" % next(ip.bound)
+    item = ip.reg.l_get(t, T(q, "Int")).s
+    n = ip.reg.l_len(t).s
+    st.assume(T("(forall ((%s Int)) (! (=> (and (<= 0 %s) (< %s %s)) (select %s %s)) :pattern (%s)))"
+                % (q, q, q, n, s.s, item, item), "Bool"))
+    st.assume(T("(forall ((%s Key)) (! (=> (select %s %s) (exists ((%s Int)) (and (<= 0 %s) (< %s %s) (= %s %s)))) "
+                ":pattern ((select %s %s))))" % (k, s.s, k, q, q, q, n, item, k, s.s, k), "Bool"))
+    return [(st, ip.new_cell(st, KeySetCell(s)))]
+
+
+def kset_term(ip, st, v):
+    """(Array Key Bool) term of a KeySet value or a set-of-strings object; None otherwise"""
+    if isinstance(v, Opaque) and v.sort == KSET:
+        return v.t
+    c = kset_cell(st, v)
+    return c.term if c is not None else None
+
+
+def assign_dictcomp(ip, s, st):
+    """`name = {k: [] for k in <set of strings>}` for a local declared local_types={name: "KeyMap[T]"}: a new dict of lists
+    whose keys are the members of the set, every list empty.  None: not this form"""
+    import ast
+    from .interp import parse_type
+    from .keymap import KeyMapCell, vsort
+    e = s.value
+    name = s.targets[0].id
+    head, args = parse_type(ip.c.local_types[name])
+    if head != "KeyMap" or len(e.generators) != 1:
+        return None
+    g = e.generators[0]
+    if g.ifs or g.is_async or not isinstance(g.target, ast.Name) or not isinstance(e.key, ast.Name) \
+            or e.key.id != g.target.id or not (isinstance(e.value, ast.List) and not e.value.elts):
+        return None
+    outs = []
+    for s2, src in ip.ev(g.iter, st):
+        kt = kset_term(ip, s2, src)
+        if kt is None:
+            return None
+        lsort = ip.lst_sort(args[0])
+        empty = ip.reg.l_empty_canonical(lsort)
+        val = T("((as const %s) %s)" % (vsort(lsort), empty.s), vsort(lsort))
+        s2.env[name] = ip.new_cell(s2, KeyMapCell(kt, val, lsort))
+        outs.append(("next", s2, None))
+    return outs
